@@ -1,11 +1,15 @@
 //! Suite registry: one module per correspondence suite; `lookup` maps a suite name to its runner.
 pub mod curve;
+pub mod oracle;
 pub mod panic;
 
 pub fn lookup(name: &str) -> Option<fn(&str) -> String> {
     Some(match name {
         "panic" => panic::run,
         "curve" => curve::run,
+        "oracle" => oracle::run,
+        "oraclerisk" => oracle::run_risk,
+        "oracleliq" => oracle::run_liq,
         _ => return None,
     })
 }
